@@ -569,6 +569,30 @@ pub fn run(ctx: &mut Ctx, which: &str) {
             (id, g.mods, ptrw)
         })
         .collect();
+    // hostile share: valid programs with 1-3 small edits that usually make them unrealisable;
+    // whatever pyxis still accepts is judged like any other accepted build
+    let n_hostile = n_cases;
+    let hostile: Vec<(String, Vec<(ItemPath, Module)>, usize, Vec<&'static str>)> = (0..n_hostile)
+        .into_par_iter()
+        .map(|i| {
+            let mut rng = Rng::derive(seed, 0x0180_0000 + i as u64);
+            let ptrw = if i % 2 == 0 { 8 } else { 4 };
+            let id = format!("k{}_", n_cases + i);
+            let mut cfg = Cfg::rich(ptrw, &id);
+            cfg.max_modules = 2;
+            cfg.max_types = 3;
+            cfg.impls = false;
+            cfg.docs = false;
+            let mut g = gen_prog::generate(&mut rng, &cfg);
+            let edits = crate::hostile::perturb(&mut g.mods, &mut rng);
+            (id, g.mods, ptrw, edits)
+        })
+        .collect();
+    let first_hostile = inputs.len();
+    for (id, mods, ptrw, _) in hostile {
+        inputs.push((id, mods, ptrw));
+    }
+    let last_hostile = inputs.len();
     // exhaustive small space
     let stride = if quick { 23 } else { 1 };
     let mut ex_total = 0usize;
@@ -593,9 +617,18 @@ pub fn run(ctx: &mut Ctx, which: &str) {
     for (i, o) in built {
         ctx.eval();
         match o {
-            BuildOutcome::Built(b) => accepted.push(b),
+            BuildOutcome::Built(b) => {
+                if i >= first_hostile && i < last_hostile {
+                    ctx.count("hostile_variants_accepted", 1);
+                }
+                accepted.push(b)
+            }
             BuildOutcome::Rejected(e) => {
-                ctx.count("rejected_by_pyxis", 1);
+                if i >= first_hostile && i < last_hostile {
+                    ctx.count("hostile_variants_rejected", 1);
+                } else {
+                    ctx.count("rejected_by_pyxis", 1);
+                }
                 if e.stage == Stage::Panic {
                     ctx.count("pyxis_panicked", 1);
                 }
